@@ -103,7 +103,11 @@ namespace Givaro
         Element& init(Element& r, const double a) const;
         Element& init(Element& r, const Integer& a) const;
         template<typename T> Element& init(Element& r, const T& a) const
-        { r = Caster<Element>(a); return reduce(r); }
+        {   // an unsigned source is reduced before it is narrowed to the signed Element
+            if (std::is_unsigned<T>::value) r = Caster<Element>(Caster<uint64_t>(a) % static_cast<uint64_t>(_p));
+            else r = Caster<Element>(a);
+            return reduce(r);
+        }
 
         Element& assign(Element& r, const Element& a) const;
 
